@@ -196,6 +196,15 @@ func outLast() any                               { return nil }
 //@ ensures [C08] suppress: !exec.verbose && errIs(err, ErrVerbose) ==> r1 == nil
 //@ ensures [C08 C20] keep: exec.verbose || !errIs(err, ErrVerbose) ==> r1 == err
 
+//@ func (*Executor).executeStatus
+//@ props C01 C06 C08 C09
+//@ modifies exec.root, exec.current, exec.lastGeneratedObjectID
+//@ ensures list: r0 != nil && fresh(r0)
+//@ ensures [C01 C09] bind: exec.root == value && exec.current == value
+//@ ensures class: r2 != nil ==> errIs(r2, ErrExecution) || errIs(r2, ErrInvalid)
+//@ ensures [C08] silent: !old(exec.verbose) ==> !errIs(r2, ErrVerbose)
+//@ ensures [C01 C06 C08] delegates: ncalls(exec.query) == 1 && callarg[any](exec.query, "value") == value && callarg[*valueList](exec.query, "vals") == r0 && r1 == callret[resultStatus](exec.query, 0) && r2 == callret[error](exec.query, 1)
+
 //@ func (*Executor).execute
 //@ props C01 C06 C09
 //@ modifies exec.root, exec.current, exec.lastGeneratedObjectID
@@ -203,7 +212,7 @@ func outLast() any                               { return nil }
 //@ ensures [C01 C09] bind: exec.root == value && exec.current == value
 //@ ensures class: r1 != nil ==> errIs(r1, ErrExecution) || errIs(r1, ErrInvalid)
 //@ ensures [C08] silent: !old(exec.verbose) ==> !errIs(r1, ErrVerbose)
-//@ ensures [C01 C06] delegates: ncalls(exec.query) == 1 && callarg[any](exec.query, "value") == value && callarg[*valueList](exec.query, "vals") == r0 && r1 == callret[error](exec.query, 1)
+//@ ensures [C01 C06] delegates: ncalls(exec.executeStatus) == 1 && callarg[any](exec.executeStatus, "value") == value && r0 == callret[*valueList](exec.executeStatus, 0) && r1 == callret[error](exec.executeStatus, 2)
 
 //@ func (*Executor).exists
 //@ props C06 C09
@@ -238,12 +247,13 @@ func outLast() any                               { return nil }
 //@ func Match
 //@ props C05 C06 C08 C11
 //@ requires path != nil
-//@ ensures [C06] one-run: ncalls(exec.execute) == 1 && callarg[any](exec.execute, "value") == value
-//@ ensures [C05 C06 C08 C20] err: callret[error](exec.execute, 1) != nil ==> r1 == callret[error](exec.execute, 1) && !r0
-//@ ensures [C06 C11] bool: callret[error](exec.execute, 1) == nil && len(callret[*valueList](exec.execute, 0).list) == 1 && is[bool](callret[*valueList](exec.execute, 0).list[0]) ==> r1 == nil && r0 == as[bool](callret[*valueList](exec.execute, 0).list[0])
-//@ ensures [C06 C11] null: callret[error](exec.execute, 1) == nil && len(callret[*valueList](exec.execute, 0).list) == 1 && callret[*valueList](exec.execute, 0).list[0] == nil ==> r1 == NULL && !r0
-//@ ensures [C06 C08] other: callret[error](exec.execute, 1) == nil && !(len(callret[*valueList](exec.execute, 0).list) == 1 && (is[bool](callret[*valueList](exec.execute, 0).list[0]) || callret[*valueList](exec.execute, 0).list[0] == nil)) ==> !r0 && r1 != nil && (r1 == NULL || errIs(r1, ErrVerbose))
-//@ ensures [C08] silent-null: callret[error](exec.execute, 1) == nil && !errIs(r1, ErrVerbose) && r1 != nil ==> r1 == NULL
+//@ ensures [C06] one-run: ncalls(exec.executeStatus) == 1 && callarg[any](exec.executeStatus, "value") == value
+//@ ensures [C05 C06 C08 C20] err: callret[error](exec.executeStatus, 2) != nil ==> r1 == callret[error](exec.executeStatus, 2) && !r0
+//@ ensures [C06 C11] bool: callret[error](exec.executeStatus, 2) == nil && !(callret[resultStatus](exec.executeStatus, 1) == statusFailed) && len(callret[*valueList](exec.executeStatus, 0).list) == 1 && is[bool](callret[*valueList](exec.executeStatus, 0).list[0]) ==> r1 == nil && r0 == as[bool](callret[*valueList](exec.executeStatus, 0).list[0])
+//@ ensures [C06 C11] null: callret[error](exec.executeStatus, 2) == nil && !(callret[resultStatus](exec.executeStatus, 1) == statusFailed) && len(callret[*valueList](exec.executeStatus, 0).list) == 1 && callret[*valueList](exec.executeStatus, 0).list[0] == nil ==> r1 == NULL && !r0
+//@ ensures [C06 C08] other: callret[error](exec.executeStatus, 2) == nil && !(callret[resultStatus](exec.executeStatus, 1) == statusFailed) && !(len(callret[*valueList](exec.executeStatus, 0).list) == 1 && (is[bool](callret[*valueList](exec.executeStatus, 0).list[0]) || callret[*valueList](exec.executeStatus, 0).list[0] == nil)) ==> !r0 && r1 != nil && (r1 == NULL || errIs(r1, ErrVerbose))
+//@ ensures [C08] silent-null: callret[error](exec.executeStatus, 2) == nil && !(callret[resultStatus](exec.executeStatus, 1) == statusFailed) && !errIs(r1, ErrVerbose) && r1 != nil ==> r1 == NULL
+//@ ensures [C08 C06] suppressed-failure-is-null: callret[error](exec.executeStatus, 2) == nil && callret[resultStatus](exec.executeStatus, 1) == statusFailed ==> !r0 && r1 == NULL
 
 // ---------------------------------------------------------------------------
 // execution.go: the evaluation spine
